@@ -41,9 +41,10 @@ type (
 		Sel string
 	}
 	Quant struct {
-		Forall bool
-		Vars   []Param
-		Body   Expr
+		Forall   bool
+		Vars     []Param
+		Body     Expr
+		Triggers [][]Expr // optional: {t1, t2} {t3} after "::"
 	}
 	Old     struct{ X Expr }
 	TypeIs  struct { // typeOf(x) == T  written  x is T
@@ -257,11 +258,28 @@ func (l *lexer) expr(minPrec int) (Expr, error) {
 		if err := l.expectOp("::"); err != nil {
 			return nil, err
 		}
+		var trigs [][]Expr
+		for l.isOp("{") {
+			l.next()
+			var tr []Expr
+			for !l.isOp("}") {
+				te, err := l.expr(3)
+				if err != nil {
+					return nil, err
+				}
+				tr = append(tr, te)
+				if l.isOp(",") {
+					l.next()
+				}
+			}
+			l.next()
+			trigs = append(trigs, tr)
+		}
 		body, err := l.expr(0)
 		if err != nil {
 			return nil, err
 		}
-		return &Quant{Forall: fa, Vars: vars, Body: body}, nil
+		return &Quant{Forall: fa, Vars: vars, Body: body, Triggers: trigs}, nil
 	}
 	if l.isID("let") {
 		l.next()
@@ -589,6 +607,7 @@ type Lemma struct {
 	File      string
 	Pkg       string
 	Axiom     bool // assumed, listed as trusted
+	Triggers  [][]Expr
 }
 
 type SortDecl struct{ Name string }
@@ -631,7 +650,7 @@ func ParseFile(path, text string, goFile bool) (*File, error) {
 	}
 	// group lines into logical clauses: a clause starts with a keyword at the
 	// beginning of the (trimmed) line; other lines continue the previous one.
-	kw := []string{"package", "import", "sort", "pure", "ghost", "lemma", "axiom", "func", "extern", "requires", "ensures", "assigns", "loop", "invariant", "decreases", "use", "inline", "noinline", "trusted", "opaque"}
+	kw := []string{"package", "import", "sort", "pure", "ghost", "lemma", "axiom", "func", "extern", "requires", "ensures", "assigns", "loop", "invariant", "decreases", "use", "inline", "noinline", "trusted", "opaque", "trigger"}
 	var clauses []string
 	for _, ln := range lines {
 		t := strings.TrimSpace(ln)
@@ -802,6 +821,15 @@ func ParseFile(path, text string, goFile bool) (*File, error) {
 			default:
 				return nil, fail(fmt.Errorf("decreases outside context"))
 			}
+		case "trigger":
+			es, err := parseExprList(rest)
+			if err != nil {
+				return nil, fail(err)
+			}
+			if curLemma == nil {
+				return nil, fail(fmt.Errorf("trigger outside lemma"))
+			}
+			curLemma.Triggers = append(curLemma.Triggers, es)
 		case "use":
 			names := strings.FieldsFunc(rest, func(r rune) bool { return r == ',' || r == ' ' })
 			switch {
